@@ -98,7 +98,18 @@ class ExprMixin:
         return PyTuple(self.eval_seq(node.elts, env))
 
     def e_List(self, node, env):
-        return PyList(self.eval_seq(node.elts, env))
+        try:
+            return PyList(self.eval_seq(node.elts, env))
+        except StarOnly as so:
+            return so.v
+        except StarThen as st:
+            base, extra = st.v, st.extra
+            n = base.n
+
+            def elem(i, base=base, extra=extra, n=n):
+                alts = [(i < n, base.elem(i))] + [(i == n + k, x) for k, x in enumerate(extra)]
+                return self.merge_values(alts)
+            return SeqV(n + len(extra), elem)
 
     def eval_seq(self, elts, env):
         out = []
@@ -116,6 +127,9 @@ class ExprMixin:
         if any(isinstance(x, tuple) and x and x[0] == "*" for x in out):
             if len(out) == 1:
                 raise StarOnly(out[0][1])
+            # [*seq, a, b]: a symbolic sequence followed by concrete items
+            if isinstance(out[0], tuple) and out[0][0] == "*" and isinstance(out[0][1], SeqV) and not any(isinstance(x, tuple) and x and x[0] == "*" for x in out[1:]):
+                raise StarThen(out[0][1], out[1:])
             raise Unsupported("starred symbolic sequence inside display")
         return out
 
@@ -132,11 +146,25 @@ class ExprMixin:
                     cur.items.update(x.items)
                 elif x is None:
                     raise Unsupported("** of None")
+                elif isinstance(x, MapV) and isinstance(cur, PyDict) and not cur.items:
+                    cur = x
                 else:
                     cur = self.arrdict_update(self.to_arrdict(cur), self.to_arrdict(x))
             else:
                 kk = self.eval(k, env)
                 vv = self.eval(v, env)
+                if isinstance(cur, MapV):
+                    if cur.has is None:
+                        raise Unsupported("update of a derived mapping")
+                    kt = self.as_val(kk)
+                    old = cur
+
+                    def no_order(i):
+                        raise Unsupported("iteration over an updated mapping")
+                    cur = MapV(old.n + 1, no_order, no_order, has=lambda t, old=old, kt=kt: z3.Or(t == kt, old.has(t)),
+                               at=lambda t, old=old, kt=kt, vv=vv: self.merge_values([(t == kt, vv), (z3.BoolVal(True), old.at(t))]))
+                    cur.updated_from = (old, kt, vv)
+                    continue
                 if isinstance(cur, PyDict) and not isinstance(kk, (Sym, TypeOfV)):
                     cur.items[self.hashable(kk)] = vv
                 else:
@@ -670,6 +698,11 @@ class ExprMixin:
 class StarOnly(Exception):
     def __init__(self, v):
         self.v = v
+
+
+class StarThen(Exception):
+    def __init__(self, v, extra):
+        self.v, self.extra = v, extra
 
 
 class Builtin_public(Builtin):
